@@ -400,11 +400,19 @@ def replay_exact(p):
 
 
 def replay_times(p):
+    # on the first start time the solver used and on a non-zero one (at 0 relative and absolute times coincide)
+    bad, msg = _replay_times(p, p.get('tau0', 0.0))
+    if not bad:
+        bad, msg = _replay_times(p, 1234.5)
+    return bad, msg
+
+
+def _replay_times(p, tau0):
     import setigen as stg
     nfr = p['nfr']
     Ts = list(p['T']) if isinstance(p['T'], (list, tuple)) else [p['T']] * nfr
     off = [sum(Ts[:m]) for m in range(nfr + 1)]
-    t0s = [p.get('tau0', 0.0) + 100.0 * m * m for m in range(nfr)]
+    t0s = [tau0 + 100.0 * m * m for m in range(nfr)]
     frames = [stg.Frame(fchans=3, tchans=Ts[m], df=2.0, dt=4.0, fch1=4096.0, t_start=t0s[m], seed=m) for m in range(nfr)]
     for m, fr in enumerate(frames):
         fr.data = np.full((Ts[m], 3), float(m))
